@@ -51,7 +51,8 @@ class Case:
             for m in re.finditer(r"/\*@([A-Za-z0-9_]+)\*/", line):
                 self.marks[m.group(1)] = i
         # filled in by the driver
-        self.records = []      # expansion records (dicts) in line order
+        self.records = []      # expansion records (dicts) in line order (latest build)
+        self.records_by = {}   # build tag -> records
         self.diags = []        # compiler diagnostics attributed to this case
         self.runrec = {}       # build label -> run record
         self.removed = None    # reason if removed by fix-point compilation
@@ -372,6 +373,7 @@ class Workspace:
             c = by_file[cid + ".rs"]
             rs.sort(key=lambda r: (r["line"], r["seq"]))
             c.records = rs
+            c.records_by[os.path.basename(str(dump))] = rs
         self.all_records = recs
         return recs
 
